@@ -11,11 +11,12 @@ structure Frame (s : Srv) (key : Str) (b b' : Bot) : Prop where
   pfx : b'.pfx = b.pfx
   cfgNick : b'.cfgNick = b.cfgNick
   cfgIdent : b'.cfgIdent = b.cfgIdent
+  isup : b'.isup = b.isup
   others : ∀ k, k ≠ key → aget b'.channels k = aget b.channels k
   n2h : ∀ x, aget b'.n2h x = aget b.n2h x ∨ ∃ u, aget s.users x = some u ∧ aget b'.n2h x = some u.mask
 
 theorem Frame.refl (s : Srv) (key : Str) (b : Bot) : Frame s key b b :=
-  ⟨rfl, rfl, rfl, rfl, fun _ _ => rfl, fun _ => Or.inl rfl⟩
+  ⟨rfl, rfl, rfl, rfl, rfl, fun _ _ => rfl, fun _ => Or.inl rfl⟩
 
 theorem Frame.trans {s : Srv} {key : Str} {b b' b'' : Bot} (h1 : Frame s key b b') (h2 : Frame s key b' b'') :
     Frame s key b b'' where
@@ -23,6 +24,7 @@ theorem Frame.trans {s : Srv} {key : Str} {b b' b'' : Bot} (h1 : Frame s key b b
   pfx := h2.pfx.trans h1.pfx
   cfgNick := h2.cfgNick.trans h1.cfgNick
   cfgIdent := h2.cfgIdent.trans h1.cfgIdent
+  isup := h2.isup.trans h1.isup
   others := fun k hk => (h2.others k hk).trans (h1.others k hk)
   n2h := fun x => by
     rcases h2.n2h x with e | ⟨u, hu, e⟩
